@@ -24,7 +24,7 @@ var rec = vh.NewRecorder("C16", "close-propagation",
 		"returns to its baseline once all endpoints are closed (nothing outlives both endpoints); non-trivial = a clean close preceded by "+
 		"data in both directions, or a dirty close; distinct = SHA-256 of the case")
 
-func TestMain(m *testing.M) { vh.Main(m, rec) }
+func TestMain(m *testing.M) { vh.Main(m, rec, recS) }
 
 type Conn struct {
 	Closer  string `json:"closer"` // client | server
